@@ -66,16 +66,21 @@ SCHED = {
     'clk(0) then 2': [0, 2],
     '3, clear, 2': [3, 'C', 2],
     '1, clear, clear, 4': [1, 'C', 'C', 4],
+    '2, clear second, 2': [2, 'D', 2],
+    '2, clear first, 1, clear second, 2': [2, 'C', 1, 'D', 2],
 }
 
 
-def run_capture(watch, sched, values=None, rec=None, with_wvf=True):
+def run_capture(watch, sched, values=None, rec=None, with_wvf=True, second=False):
     """returns (recorded {wire name: list}, expected {wire name: list}, vars)"""
     with quiet():
         s = py4hw.HWSystem()
         w = build(s)
         wl = WATCH[watch](w)
         wvf = Waveform(s, 'wvf', wl) if with_wvf else None
+        # a second, independent recorder in the same design that shares wires with the first ('D' in a schedule clears only this one)
+        wl2 = [w['q'], w['a']] if second else []
+        wvf2 = Waveform(s, 'dbg', wl2) if (with_wvf and second) else None
         if values is None:
             symsim.instrument(s, rec)
         sim = s.getSimulator()
@@ -88,8 +93,15 @@ def run_capture(watch, sched, values=None, rec=None, with_wvf=True):
             uniq.append(ww)
     for ww in uniq:
         expected[ww.name] = []
+    expected2 = {ww.name: [] for ww in wl2}
     step = 0
     for item in sched:
+        if item == 'D':
+            if wvf2 is not None:
+                wvf2.clear()
+            for k in expected2:
+                expected2[k] = []
+            continue
         if item == 'C':
             if wvf is not None:
                 wvf.clear()
@@ -115,25 +127,36 @@ def run_capture(watch, sched, values=None, rec=None, with_wvf=True):
                     sim.propagateAll()
                 for ww in uniq:
                     expected[ww.name].append(ww.value)
+                for ww in wl2:
+                    expected2[ww.name].append(ww.value)
                 with quiet():
                     sim.clk(1)
     recorded = None
     if wvf is not None:
         recorded = {k.name: list(v) for k, v in wvf.getDict().items()}
+    if second:
+        run_capture.second = ({k.name: list(v) for k, v in wvf2.getDict().items()} if wvf2 is not None else None, expected2)
     return recorded, expected, vars_, wvf, s
 
 
 def capture_task(p, cfg, rec):
     watch, sched = cfg['watch'], cfg['sched']
-    recorded, _, vars_, wvf, s = run_capture(watch, SCHED[sched], rec=rec)
-    _, expected, v2, _, _ = run_capture(watch, SCHED[sched], rec=rec, with_wvf=False)
-    cycles = sum(x for x in SCHED[sched][max([i for i, x in enumerate(SCHED[sched]) if x == 'C'] + [-1]) + 1:] if x != 'C')
+    second = cfg.get('second', False)
+    recorded, _, vars_, wvf, s = run_capture(watch, SCHED[sched], rec=rec, second=second)
+    rec2 = run_capture.second[0] if second else None
+    _, expected, v2, _, _ = run_capture(watch, SCHED[sched], rec=rec, with_wvf=False, second=second)
+    exp2 = run_capture.second[1] if second else None
+    cycles = sum(x for x in SCHED[sched][max([i for i, x in enumerate(SCHED[sched]) if x == 'C'] + [-1]) + 1:] if x not in ('C', 'D'))
     p.res['states'] += 1
     p.res['transitions'] += cycles
 
     def replay(values):
-        r, _, _, _, _ = run_capture(watch, SCHED[sched], values=values)
-        _, e, _, _, _ = run_capture(watch, SCHED[sched], values=values, with_wvf=False)
+        r, _, _, _, _ = run_capture(watch, SCHED[sched], values=values, second=second)
+        r2 = run_capture.second[0] if second else None
+        _, e, _, _, _ = run_capture(watch, SCHED[sched], values=values, with_wvf=False, second=second)
+        e2 = run_capture.second[1] if second else None
+        if second and r2 != e2:
+            return {'second recorder': r2, 'carried_into_each_edge': e2, 'schedule': SCHED[sched]}
         return None if r == e else {'recorded': r, 'carried_into_each_edge': e, 'watch': watch, 'schedule': SCHED[sched]}
     p.structural('one entry per distinct watched wire', sorted(recorded) == sorted(expected), detail={'recorded': sorted(recorded), 'expected': sorted(expected)})
     for name in expected:
@@ -147,6 +170,19 @@ def capture_task(p, cfg, rec):
                 cs.append(z3.BoolVal(True) if c is True else c)
         p.prove('%s: every sample equals the value carried into that edge' % name, z3.Or(*cs) if cs else z3.BoolVal(False),
                 inputs=vars_, replay=replay)
+    if second:
+        p.structural('second recorder: one entry per watched wire', sorted(rec2) == sorted(exp2), detail={'recorded': sorted(rec2), 'expected': sorted(exp2)})
+        for name in exp2:
+            got = rec2.get(name, [])
+            p.structural('second recorder %s: one sample per cycle since its own last clear()' % name, len(got) == len(exp2[name]),
+                         detail={'samples': len(got), 'expected': len(exp2[name])})
+            cs = []
+            for k in range(min(len(got), len(exp2[name]))):
+                c = D.differ(got[k], exp2[name][k])
+                if c is not False:
+                    cs.append(z3.BoolVal(True) if c is True else c)
+            p.prove('second recorder %s: every sample equals the value carried into that edge' % name, z3.Or(*cs) if cs else z3.BoolVal(False),
+                    inputs=vars_, replay=replay)
 
 
 # ---------------------------------------------------------------------------------------------------
@@ -358,9 +394,15 @@ def tasks_for(tier):
     t = []
     for wname in WATCH:
         for sname in SCHED:
+            if 'second' in sname:
+                continue
             if quick and wname not in ('a,b,q', 'duplicate q,q,a', 'port alias (reg.q port, q wire)', 'register of a second clock domain') and sname not in ('1x6', '3, clear, 2'):
                 continue
             t.append(('capture watch[%s] schedule[%s]' % (wname, sname), capture_task, {'watch': wname, 'sched': sname}))
+    # two recorders in one design that share wires: samples, lengths and clear() of one must not touch the other
+    for wname in (('a,b,q', 'comb n and c') if quick else ('a,b,q', 'comb n and c', 'duplicate q,q,a', 'port alias (reg.q port, q wire)', 'input a')):
+        for sname in ('2+1+3', '3, clear, 2', '2, clear second, 2', '2, clear first, 1, clear second, 2'):
+            t.append(('capture with a second recorder on q,a: watch[%s] schedule[%s]' % (wname, sname), capture_task, {'watch': wname, 'sched': sname, 'second': True}))
     rl = [(['a1'], 5), (['a1', 'b1'], 3), (['c3'], 3), (['a1', 'c3'], 2), (['a1', 'a1'], 3), (['a1'], 0), (['d4'], 2),
           (['c3', 'sub:c3'], 2), (['sub:c3', 'c3'], 2), (['d4', 'sub:d4'], 1)]
     if not quick:
